@@ -8,11 +8,27 @@ def keyOf (p : QId × QuotaCfg) (h : Hdrs) : Key := (p.1, groupOf p.2 h)
 
 theorem incChain_cons (st : St) (a : QId) (c : QuotaCfg) (rest : List (QId × QuotaCfg)) (r : Rid) (t : Nat) (h : Hdrs) :
     incChain st ((a, c) :: rest) r t h =
-      if (incLevel c.max c.win (st.at (a, groupOf c h)) r t).2 = IncRes.increased
-      then incChain (KMap.set st (a, groupOf c h) (incLevel c.max c.win (st.at (a, groupOf c h)) r t).1) rest r t h
-      else KMap.set st (a, groupOf c h) (incLevel c.max c.win (st.at (a, groupOf c h)) r t).1 := by
+      if (incLevel c.max c.win (st.at (a, groupOf c h)) r t).2 = IncRes.increased then
+        if (incChain (KMap.set st (a, groupOf c h) (incLevel c.max c.win (st.at (a, groupOf c h)) r t).1) rest r t h).2
+            = IncRes.blocked then
+          (KMap.set (incChain (KMap.set st (a, groupOf c h) (incLevel c.max c.win (st.at (a, groupOf c h)) r t).1) rest r t h).1
+             (a, groupOf c h)
+             (refundLevel (St.at (incChain (KMap.set st (a, groupOf c h)
+                (incLevel c.max c.win (st.at (a, groupOf c h)) r t).1) rest r t h).1 (a, groupOf c h)) r).1,
+           IncRes.blocked)
+        else
+          ((incChain (KMap.set st (a, groupOf c h) (incLevel c.max c.win (st.at (a, groupOf c h)) r t).1) rest r t h).1,
+           IncRes.increased)
+      else (KMap.set st (a, groupOf c h) (incLevel c.max c.win (st.at (a, groupOf c h)) r t).1,
+            (incLevel c.max c.win (st.at (a, groupOf c h)) r t).2) := by
   simp only [incChain]
-  cases hr : (incLevel c.max c.win (st.at (a, groupOf c h)) r t).2 <;> simp
+  cases hr : (incLevel c.max c.win (st.at (a, groupOf c h)) r t).2 with
+  | already => simp
+  | blocked => simp
+  | increased =>
+    simp only [if_true]
+    cases hi : (incChain (KMap.set st (a, groupOf c h) (incLevel c.max c.win (st.at (a, groupOf c h)) r t).1) rest r t h).2 <;>
+      simp
 
 theorem allowedChain_cons (st : St) (a : QId) (c : QuotaCfg) (rest : List (QId × QuotaCfg)) (r : Rid) (h : Hdrs) :
     allowedChain st ((a, c) :: rest) r h =
@@ -28,8 +44,14 @@ theorem decChain_cons (st : St) (a : QId) (c : QuotaCfg) (rest : List (QId × Qu
 
 theorem sInc_cons (ss : SSt) (a : QId) (c : QuotaCfg) (rest : List (QId × QuotaCfg)) (t : Nat) (h : Hdrs) :
     sInc ss ((a, c) :: rest) t h =
-      if c.max < curCharged c.win t (ss.at (a, groupOf c h)) + 1 then ss
-      else sInc (KMap.set ss (a, groupOf c h) (chargeWin c.win t (ss.at (a, groupOf c h)))) rest t h := by
+      if c.max < curCharged c.win t (ss.at (a, groupOf c h)) + 1 then (ss, false)
+      else if (sInc (KMap.set ss (a, groupOf c h) (chargeWin c.win t (ss.at (a, groupOf c h)))) rest t h).2 = true then
+        ((sInc (KMap.set ss (a, groupOf c h) (chargeWin c.win t (ss.at (a, groupOf c h)))) rest t h).1, true)
+      else
+        (KMap.set (sInc (KMap.set ss (a, groupOf c h) (chargeWin c.win t (ss.at (a, groupOf c h)))) rest t h).1
+           (a, groupOf c h)
+           (refundWin (SSt.at (sInc (KMap.set ss (a, groupOf c h) (chargeWin c.win t (ss.at (a, groupOf c h)))) rest t h).1
+             (a, groupOf c h))), false) := by
   simp only [sInc]
 
 theorem sAdmit_cons (ss : SSt) (a : QId) (c : QuotaCfg) (rest : List (QId × QuotaCfg)) (h : Hdrs) :
@@ -137,6 +159,39 @@ theorem incLevel_blocked_lookup (mx win : Nat) (l : Lvl) (r t : Nat) (hf : l.mem
     · simp [hd]
   · simp only [hblk, if_false] at h; exact absurd rfl h
 
+theorem refundLevel_lookup_other (l : Lvl) (r r' : Rid) (hne : r' ≠ r) (h : l.memo.lookup r' = none) :
+    (refundLevel l r).1.memo.lookup r' = none := by
+  have hb : (r' == r) = false := by simpa using hne
+  unfold refundLevel
+  split
+  · simp only [List.lookup_cons, hb]
+    exact lookup_filter_none _ _ _ h
+  · exact h
+
+theorem refundLevel_not_true (l : Lvl) (r : Rid) : (refundLevel l r).1.memo.lookup r ≠ some true := by
+  unfold refundLevel
+  split
+  · simp
+  · rename_i hx
+    intro h
+    exact hx h
+
+theorem refundLevel_did (l : Lvl) (r : Rid) (h : l.memo.lookup r = some true) : (refundLevel l r).2 = true := by
+  simp [refundLevel, h]
+
+theorem allowedLevel_false_of (l : Lvl) (r : Rid) (h : l.memo.lookup r ≠ some true) : (allowedLevel l r).2 = false := by
+  unfold allowedLevel
+  cases hl : l.memo.lookup r with
+  | none => rfl
+  | some v =>
+    cases v with
+    | false => rfl
+    | true => exact absurd hl h
+
+/-- Some quota of the chain has already been charged `max` arrivals in its current window. -/
+def fullCharged (ss : SSt) (ch : List (QId × QuotaCfg)) (t : Nat) (h : Hdrs) : Bool :=
+  ch.any fun (a, c) => decide (c.max ≤ curCharged c.win t (ss.at (a, groupOf c h)))
+
 theorem fullCharged_congr (ss ss' : SSt) (t : Nat) (h : Hdrs) : ∀ (ch : List (QId × QuotaCfg)),
     (∀ p ∈ ch, ss.at (keyOf p h) = ss'.at (keyOf p h)) → fullCharged ss ch t h = fullCharged ss' ch t h := by
   intro ch
@@ -154,7 +209,7 @@ theorem fullCharged_congr (ss ss' : SSt) (t : Nat) (h : Hdrs) : ∀ (ch : List (
 /-! ### Keys the walkers do not touch -/
 
 theorem incChain_at_other (r t : Nat) (h : Hdrs) (k : Key) : ∀ (ch : List (QId × QuotaCfg)) (st : St),
-    (∀ p ∈ ch, keyOf p h ≠ k) → (incChain st ch r t h).at k = st.at k := by
+    (∀ p ∈ ch, keyOf p h ≠ k) → (incChain st ch r t h).1.at k = st.at k := by
   intro ch
   induction ch with
   | nil => intro st _; rfl
@@ -162,14 +217,45 @@ theorem incChain_at_other (r t : Nat) (h : Hdrs) (k : Key) : ∀ (ch : List (QId
     intro st hk
     obtain ⟨a, c⟩ := ac
     have hk0 : (a, groupOf c h) ≠ k := hk (a, c) (by simp)
+    have hrest := ih (KMap.set st (a, groupOf c h) (incLevel c.max c.win (st.at (a, groupOf c h)) r t).1)
+      (fun p hp => hk p (by simp [hp]))
     rw [incChain_cons]
     split
-    · rw [ih _ (fun p hp => hk p (by simp [hp])), St.at_set]; simp [hk0]
-    · rw [St.at_set]; simp [hk0]
+    · split
+      · dsimp only
+        rw [St.at_set]
+        simp only [hk0, if_false]
+        rw [hrest, St.at_set]; simp [hk0]
+      · dsimp only
+        rw [hrest, St.at_set]; simp [hk0]
+    · dsimp only
+      rw [St.at_set]; simp [hk0]
+
+theorem sInc_at_other (t : Nat) (h : Hdrs) (k : Key) : ∀ (ch : List (QId × QuotaCfg)) (ss : SSt),
+    (∀ p ∈ ch, keyOf p h ≠ k) → (sInc ss ch t h).1.at k = ss.at k := by
+  intro ch
+  induction ch with
+  | nil => intro ss _; rfl
+  | cons ac rest ih =>
+    intro ss hk
+    obtain ⟨a, c⟩ := ac
+    have hk0 : (a, groupOf c h) ≠ k := hk (a, c) (by simp)
+    have hrest := ih (KMap.set ss (a, groupOf c h) (chargeWin c.win t (ss.at (a, groupOf c h))))
+      (fun p hp => hk p (by simp [hp]))
+    rw [sInc_cons]
+    split
+    · rfl
+    · split
+      · dsimp only
+        rw [hrest, SSt.at_set]; simp [hk0]
+      · dsimp only
+        rw [SSt.at_set]
+        simp only [hk0, if_false]
+        rw [hrest, SSt.at_set]; simp [hk0]
 
 theorem incChain_lookup_other (r t : Nat) (h : Hdrs) (r' : Rid) (hne : r' ≠ r) :
     ∀ (ch : List (QId × QuotaCfg)) (st : St), (∀ k, (st.at k).memo.lookup r' = none) →
-      ∀ k, ((incChain st ch r t h).at k).memo.lookup r' = none := by
+      ∀ k, ((incChain st ch r t h).1.at k).memo.lookup r' = none := by
   intro ch
   induction ch with
   | nil => intro st hst k; exact hst k
@@ -183,9 +269,17 @@ theorem incChain_lookup_other (r t : Nat) (h : Hdrs) (r' : Rid) (hne : r' ≠ r)
       split
       · exact incLevel_lookup_other _ _ _ _ _ _ hne (hst _)
       · exact hst k
+    have hrest := ih _ hset
     rw [incChain_cons]
     split
-    · exact ih _ hset
+    · split
+      · dsimp only
+        intro k
+        rw [St.at_set]
+        split
+        · exact refundLevel_lookup_other _ _ _ hne (hrest _)
+        · exact hrest k
+      · exact hrest
     · exact hset
 
 theorem allowedChain_lookup_none (r : Rid) (h : Hdrs) (r' : Rid) :
@@ -233,10 +327,11 @@ theorem decChain_lookup_none (r : Rid) (h : Hdrs) (r' : Rid) :
 theorem incChain_rel (cfg : Cfg) (r t : Nat) (h : Hdrs) : ∀ (ch : List (QId × QuotaCfg)) (st : St) (ss : SSt),
     (∀ p ∈ ch, validPair cfg p) → (ch.map (·.1)).Nodup → LevelsRel cfg st ss →
     (∀ p ∈ ch, (st.at (keyOf p h)).memo.lookup r = none) →
-    LevelsRel cfg (incChain st ch r t h) (sInc ss ch t h) := by
+    LevelsRel cfg (incChain st ch r t h).1 (sInc ss ch t h).1 ∧
+    ((incChain st ch r t h).2 = IncRes.blocked ↔ (sInc ss ch t h).2 = false) := by
   intro ch
   induction ch with
-  | nil => intro st ss _ _ hrel _; exact hrel
+  | nil => intro st ss _ _ hrel _; exact ⟨hrel, by simp [incChain, sInc]⟩
   | cons ac rest ih =>
     intro st ss hv hnd hrel hfresh
     obtain ⟨a, c⟩ := ac
@@ -249,20 +344,45 @@ theorem incChain_rel (cfg : Cfg) (r t : Nat) (h : Hdrs) : ∀ (ch : List (QId ×
     by_cases hblk : c.max < curCharged c.win t (ss.at (a, groupOf c h)) + 1
     · simp only [hblk, if_true] at hres ⊢
       simp only [hres] at hstep ⊢
-      exact hrel.setL (a, groupOf c h) c hac _ (by simpa using hstep)
+      have : (IncRes.blocked = IncRes.increased) = False := by simp
+      simp only [this, if_false]
+      exact ⟨hrel.setL (a, groupOf c h) c hac _ (by simpa using hstep), by simp⟩
     · simp only [hblk, if_false] at hres ⊢
       simp only [hres, if_true] at hstep ⊢
       simp only [List.map_cons, List.nodup_cons] at hnd
-      apply ih _ _ (fun p hp => hv p (by simp [hp])) hnd.2
-      · exact hrel.set2 (a, groupOf c h) c hac _ _ hstep
-      · intro p hp
-        have : keyOf p h ≠ (a, groupOf c h) := by
-          intro e
-          have : p.1 = a := congrArg Prod.fst e
-          exact hnd.1 (by rw [← this]; exact List.mem_map_of_mem hp)
-        rw [St.at_set]
-        simp only [Ne.symm this, if_false]
-        exact hfresh p (by simp [hp])
+      have hother : ∀ q ∈ rest, keyOf q h ≠ (a, groupOf c h) := by
+        intro q hq e
+        have : q.1 = a := congrArg Prod.fst e
+        exact hnd.1 (by rw [← this]; exact List.mem_map_of_mem hq)
+      obtain ⟨ih1, ih2⟩ := ih (KMap.set st (a, groupOf c h) (incLevel c.max c.win (st.at (a, groupOf c h)) r t).1)
+        (KMap.set ss (a, groupOf c h) (chargeWin c.win t (ss.at (a, groupOf c h))))
+        (fun p hp => hv p (by simp [hp])) hnd.2 (hrel.set2 (a, groupOf c h) c hac _ _ hstep)
+        (by
+          intro p hp
+          rw [St.at_set]
+          simp only [Ne.symm (hother p hp), if_false]
+          exact hfresh p (by simp [hp]))
+      by_cases hup : (sInc (KMap.set ss (a, groupOf c h) (chargeWin c.win t (ss.at (a, groupOf c h)))) rest t h).2 = true
+      · have hnb : ¬ (incChain (KMap.set st (a, groupOf c h) (incLevel c.max c.win (st.at (a, groupOf c h)) r t).1) rest r t h).2
+            = IncRes.blocked := by
+          intro hb; rw [ih2.mp hb] at hup; exact absurd hup (by simp)
+        simp only [hup, hnb, if_true, if_false]
+        exact ⟨ih1, by simp⟩
+      · have hupf : (sInc (KMap.set ss (a, groupOf c h) (chargeWin c.win t (ss.at (a, groupOf c h)))) rest t h).2 = false := by
+          simpa using hup
+        have hb := ih2.mpr hupf
+        simp only [hb, hupf, if_true, Bool.false_eq_true, if_false]
+        refine ⟨?_, by simp⟩
+        -- the level is still as `Inc` left it: the request's entry is `true`, so the refund happens
+        have hat : St.at (incChain (KMap.set st (a, groupOf c h) (incLevel c.max c.win (st.at (a, groupOf c h)) r t).1) rest r t h).1
+            (a, groupOf c h) = (incLevel c.max c.win (st.at (a, groupOf c h)) r t).1 := by
+          rw [incChain_at_other _ _ _ _ _ _ hother, St.at_set]; simp
+        have hdid := refundLevel_did (St.at (incChain (KMap.set st (a, groupOf c h)
+            (incLevel c.max c.win (st.at (a, groupOf c h)) r t).1) rest r t h).1 (a, groupOf c h)) r
+          (by rw [hat]; exact incLevel_increased_lookup _ _ _ _ _ hres)
+        have := refundLevel_inv (ih1 (a, groupOf c h) c hac) r
+        simp only [hdid, if_true] at this
+        exact ih1.set2 (a, groupOf c h) c hac _ _ this
 
 theorem allowedChain_rel (cfg : Cfg) (r : Rid) (h : Hdrs) : ∀ (ch : List (QId × QuotaCfg)) (st : St) (ss : SSt),
     (∀ p ∈ ch, validPair cfg p) → LevelsRel cfg st ss →
@@ -302,24 +422,30 @@ theorem decChain_rel (cfg : Cfg) (r : Rid) (h : Hdrs) : ∀ (ch : List (QId × Q
     rw [decChain_cons]
     exact ih _ _ (fun p hp => hv p (by simp [hp])) (hrel.setL (a, groupOf c h) c hac _ (decLevel_inv (hrel (a, groupOf c h) c hac) r))
 
-/-! ### A refused limiter call met a quota that was charged `max` already -/
+/-! ### The verdict of a limiter call is the flag of the reconstruction -/
 
 theorem incChain_all_true (cfg : Cfg) (r t : Nat) (h : Hdrs) : ∀ (ch : List (QId × QuotaCfg)) (st : St) (ss : SSt),
     (∀ p ∈ ch, validPair cfg p) → (ch.map (·.1)).Nodup → LevelsRel cfg st ss →
     (∀ p ∈ ch, (st.at (keyOf p h)).memo.lookup r = none) →
-    fullCharged ss ch t h = false →
-    ∀ p ∈ ch, ((incChain st ch r t h).at (keyOf p h)).memo.lookup r = some true := by
+    (sInc ss ch t h).2 = true →
+    ∀ p ∈ ch, ((incChain st ch r t h).1.at (keyOf p h)).memo.lookup r = some true := by
   intro ch
   induction ch with
   | nil => intro st ss _ _ _ _ _ p hp; simp at hp
   | cons ac rest ih =>
-    intro st ss hv hnd hrel hfresh hfull p hp
+    intro st ss hv hnd hrel hfresh hok p hp
     obtain ⟨a, c⟩ := ac
     have hac : cfg.quotas[a]? = some c := hv (a, c) (by simp)
     have hf0 : (st.at (a, groupOf c h)).memo.lookup r = none := hfresh (a, c) (by simp)
     have hinv := hrel (a, groupOf c h) c hac
-    simp only [fullCharged, List.any_cons, Bool.or_eq_false_iff, decide_eq_false_iff_not] at hfull
-    have hroom : ¬ c.max < curCharged c.win t (ss.at (a, groupOf c h)) + 1 := by omega
+    rw [sInc_cons] at hok
+    have hroom : ¬ c.max < curCharged c.win t (ss.at (a, groupOf c h)) + 1 := by
+      intro hb; simp [hb] at hok
+    simp only [hroom, if_false] at hok
+    have hup : (sInc (KMap.set ss (a, groupOf c h) (chargeWin c.win t (ss.at (a, groupOf c h)))) rest t h).2 = true := by
+      by_cases hu : (sInc (KMap.set ss (a, groupOf c h) (chargeWin c.win t (ss.at (a, groupOf c h)))) rest t h).2 = true
+      · exact hu
+      · simp [hu] at hok
     have hres := incLevel_res hinv c.win r t hf0
     simp only [hroom, if_false] at hres
     have hstep := incLevel_inv hinv c.win r t
@@ -329,27 +455,28 @@ theorem incChain_all_true (cfg : Cfg) (r t : Nat) (h : Hdrs) : ∀ (ch : List (Q
       intro q hq e
       have : q.1 = a := congrArg Prod.fst e
       exact hnd.1 (by rw [← this]; exact List.mem_map_of_mem hq)
+    have hrel1 := hrel.set2 (a, groupOf c h) c hac _ _ hstep
+    have hfresh1 : ∀ q ∈ rest, (St.at (KMap.set st (a, groupOf c h) (incLevel c.max c.win (st.at (a, groupOf c h)) r t).1)
+        (keyOf q h)).memo.lookup r = none := by
+      intro q hq
+      rw [St.at_set]
+      simp only [Ne.symm (hother q hq), if_false]
+      exact hfresh q (by simp [hq])
+    have hnb : ¬ (incChain (KMap.set st (a, groupOf c h) (incLevel c.max c.win (st.at (a, groupOf c h)) r t).1) rest r t h).2
+        = IncRes.blocked := by
+      intro hb
+      have := (incChain_rel cfg r t h rest _ _ (fun p hp => hv p (by simp [hp])) hnd.2 hrel1 hfresh1).2.mp hb
+      rw [this] at hup; exact absurd hup (by simp)
     rw [incChain_cons]
-    simp only [hres, if_true]
+    simp only [hres, hnb, if_true, if_false]
     simp only [List.mem_cons] at hp
     rcases hp with hp | hp
     · subst hp
-      show ((incChain _ rest r t h).at (a, groupOf c h)).memo.lookup r = some true
+      show ((incChain _ rest r t h).1.at (a, groupOf c h)).memo.lookup r = some true
       rw [incChain_at_other _ _ _ _ _ _ hother, St.at_set]
       simp only [if_true]
       exact incLevel_increased_lookup _ _ _ _ _ hres
-    · apply ih _ (KMap.set ss (a, groupOf c h) (chargeWin c.win t (ss.at (a, groupOf c h))))
-        (fun p hp => hv p (by simp [hp])) hnd.2 (hrel.set2 (a, groupOf c h) c hac _ _ hstep) _ _ p hp
-      · intro q hq
-        rw [St.at_set]
-        simp only [Ne.symm (hother q hq), if_false]
-        exact hfresh q (by simp [hq])
-      · have : fullCharged ss rest t h = false := hfull.2
-        rw [← this]
-        apply fullCharged_congr
-        intro q hq
-        rw [SSt.at_set]
-        simp [Ne.symm (hother q hq)]
+    · exact ih _ _ (fun p hp => hv p (by simp [hp])) hnd.2 hrel1 hfresh1 hup p hp
 
 theorem allowedChain_all_true (r : Rid) (h : Hdrs) : ∀ (ch : List (QId × QuotaCfg)) (st : St),
     (ch.map (·.1)).Nodup → (∀ p ∈ ch, (st.at (keyOf p h)).memo.lookup r = some true) →
@@ -375,16 +502,48 @@ theorem allowedChain_all_true (r : Rid) (h : Hdrs) : ∀ (ch : List (QId × Quot
     simp only [Ne.symm this, if_false]
     exact hall p (by simp [hp])
 
-theorem limiter_false_full (cfg : Cfg) (st : St) (ss : SSt) (ch : List (QId × QuotaCfg)) (r t : Nat) (h : Hdrs)
+/-- After a walk that answered `blocked` the entry of the request at the first level is not `true`. -/
+theorem incChain_blocked_head (st : St) (a : QId) (c : QuotaCfg) (rest : List (QId × QuotaCfg)) (r t : Nat) (h : Hdrs)
+    (hf : (st.at (a, groupOf c h)).memo.lookup r = none) (hnk : ∀ q ∈ rest, keyOf q h ≠ (a, groupOf c h))
+    (hb : (incChain st ((a, c) :: rest) r t h).2 = IncRes.blocked) :
+    ((incChain st ((a, c) :: rest) r t h).1.at (a, groupOf c h)).memo.lookup r ≠ some true := by
+  rw [incChain_cons] at hb ⊢
+  by_cases hres : (incLevel c.max c.win (st.at (a, groupOf c h)) r t).2 = IncRes.increased
+  · simp only [hres, if_true] at hb ⊢
+    by_cases hin : (incChain (KMap.set st (a, groupOf c h) (incLevel c.max c.win (st.at (a, groupOf c h)) r t).1) rest r t h).2
+        = IncRes.blocked
+    · simp only [hin, if_true]
+      rw [St.at_set]
+      simp only [if_true]
+      exact refundLevel_not_true _ r
+    · simp [hin] at hb
+  · simp only [hres, if_false] at hb ⊢
+    rw [St.at_set]
+    simp only [if_true]
+    exact incLevel_blocked_lookup _ _ _ _ _ hf hres
+
+/-- A limiter call with a fresh request id is let through exactly when the reconstruction says the
+    arrival found room in every quota of the chain. -/
+theorem limiter_verdict (cfg : Cfg) (st : St) (ss : SSt) (ch : List (QId × QuotaCfg)) (r t : Nat) (h : Hdrs)
     (hv : ∀ p ∈ ch, validPair cfg p) (hnd : (ch.map (·.1)).Nodup) (hrel : LevelsRel cfg st ss)
-    (hfresh : ∀ p ∈ ch, (st.at (keyOf p h)).memo.lookup r = none)
-    (hfalse : (allowedChain (incChain st ch r t h) ch r h).2 = false) :
-    fullCharged ss ch t h = true := by
-  cases hf : fullCharged ss ch t h with
-  | true => rfl
+    (hfresh : ∀ p ∈ ch, (st.at (keyOf p h)).memo.lookup r = none) :
+    (allowedChain (incChain st ch r t h).1 ch r h).2 = (sInc ss ch t h).2 := by
+  cases hok : (sInc ss ch t h).2 with
+  | true =>
+    exact allowedChain_all_true r h ch _ hnd (incChain_all_true cfg r t h ch st ss hv hnd hrel hfresh hok)
   | false =>
-    have := allowedChain_all_true r h ch _ hnd (incChain_all_true cfg r t h ch st ss hv hnd hrel hfresh hf)
-    rw [this] at hfalse
-    exact absurd hfalse (by simp)
+    cases ch with
+    | nil => simp [sInc] at hok
+    | cons ac rest =>
+      obtain ⟨a, c⟩ := ac
+      have hb := (incChain_rel cfg r t h _ st ss hv hnd hrel hfresh).2.mpr hok
+      simp only [List.map_cons, List.nodup_cons] at hnd
+      have hother : ∀ q ∈ rest, keyOf q h ≠ (a, groupOf c h) := by
+        intro q hq e
+        have : q.1 = a := congrArg Prod.fst e
+        exact hnd.1 (by rw [← this]; exact List.mem_map_of_mem hq)
+      have := incChain_blocked_head st a c rest r t h (hfresh (a, c) (by simp)) hother hb
+      rw [allowedChain_cons]
+      simp [allowedLevel_false_of _ r this]
 
 end LunarVerif.C01
